@@ -622,7 +622,10 @@ def bare_error(extrabody=None):
     body = b'Unrecoverable error in the server.'
     if extrabody is not None:
         if not isinstance(extrabody, bytes):
-            extrabody = extrabody.encode('utf-8')
+            # A traceback may quote text that cannot be encoded (an
+            # exception message with a lone surrogate): this function
+            # must not fail, so escape what does not encode.
+            extrabody = extrabody.encode('utf-8', 'backslashreplace')
         body += b'\n' + extrabody
 
     return (b'500 Internal Server Error',
